@@ -197,7 +197,7 @@ def gen_links(src, FN):
             return super().ev_Compare(e, st, k, K)
         def ev_Starred(self, e, st, k, K): return self.ev(e.value, st, k, K)
         def ev_IfExp(self, e, st, k, K):
-            return self.ev(e.test, st, lambda s, v: self.branch(s, truthy(v), lambda a: self.ev(e.body, a, k, K), lambda b: self.ev(e.orelse, b, k, K)), K)
+            return self.ev(e.test, st, lambda s, v: self.branch(s, truthy(v, s), lambda a: self.ev(e.body, a, k, K), lambda b: self.ev(e.orelse, b, k, K)), K)
     H = {'id': h_id, 'SEEN_EXCEPTIONS_CACHE.add': h_seen_add, 'SEEN_EXCEPTIONS_CACHE.discard': h_seen_discard, 'get_pickleable_exception': h_get_pickleable, 'coder.loads': h_coder, 'coder.dumps': h_coder,
          'type': h_type, 'getattr': h_getattr, 'ensure_serializable': h_ensure, '_prepare_exception': h_rec, 'ExceptionRepr': h_ExceptionRepr}
     ex = Ex(H); ex.inline_scope = (src, REL, None)
@@ -205,6 +205,8 @@ def gen_links(src, FN):
     st.pc += [Val.is_ref(exc), Val.a(exc) < st.heap.next, st.heap.next > 0, Not(st.ghost['SEEN'][Val.a(exc)])]
     h = st.heap; ea = Val.a(exc); cause, ctxt, supp, klass = h.field('__cause__')[ea], h.field('__context__')[ea], h.field('__suppress_context__')[ea], h.field('__class__')[ea]
     st.pc += [Or(cause == Val.none, And(Val.is_ref(cause), is_exc_inst(cause))), Or(ctxt == Val.none, And(Val.is_ref(ctxt), is_exc_inst(ctxt))), Val.is_boolv(supp), Val.is_ref(klass)]
+    st.pc += [Implies(Val.is_ref(cause), Val.a(cause) < st.heap.next), Implies(Val.is_ref(ctxt), Val.a(ctxt) < st.heap.next)]          # well-formed heap: existing objects lie below the allocation pointer
+    for v_ in (exc, cause, ctxt): mark_exception(st, v_)          # the task's exception and its links come from user code: their truth value is not known (`if cause:` is not `if cause is not None:`)
     st.facts.append(ForAll([Const('x_', Val)], Implies(is_exc_inst(Const('x_', Val)), True)))
     cnt = collections.Counter()
     def prep_ret(s, v):
@@ -254,6 +256,8 @@ def gen_links(src, FN):
     st2.pc += [Val.is_ref(rp), Not(is_exc_inst(rp)), Val.a(rp) < st2.heap.next, st2.heap.next > 0]
     h2 = st2.heap; ra = Val.a(rp); rc, rx, rs = h2.field('exc_cause')[ra], h2.field('exc_context')[ra], h2.field('exc_suppress_context')[ra]
     st2.pc += [Or(rc == Val.none, Val.is_ref(rc)), Or(rx == Val.none, Val.is_ref(rx)), Val.is_boolv(rs)]
+    st2.pc += [Implies(Val.is_ref(rc), Val.a(rc) < st2.heap.next), Implies(Val.is_ref(rx), Val.a(rx) < st2.heap.next)]
+    st2.ghost['__exc_objs'] = Lambda([Int('a_')], Or(And(Val.is_ref(rc), Val.a(rc) == Int('a_'), is_exc_inst(rc)), And(Val.is_ref(rx), Val.a(rx) == Int('a_'), is_exc_inst(rx))))          # a link stored as a live exception object (pickle path) is user code's
     def topy_ret(s, v):
         cnt['to_python:return'] += 1; r = to_val(v); hh = s.heap; ra_ = Val.a(r)
         oblige(s, "exception_to_python/post: __cause__ is the decoded exc_cause when present  [C19]", Implies(rc != Val.none, hh.field('__cause__')[ra_] == topy(rc)))
